@@ -137,6 +137,9 @@ def check(prog: Program, run: Run) -> None:
              "when it is true; odxassert/odxrequire only go through odxraise", floor=3)
     run.rule("C17.R3", "every writer of the flag other than its initialiser saves the old "
              "value first and restores it in a finally clause", floor=1)
+    run.rule("C17.R5", "exception classes that exist to steer dispatch (caught by name to try the "
+             "next alternative, e.g. DecodeMismatch) are raised unconditionally, never through "
+             "odxraise", floor=1)
     run.rule("C17.R4", "every call-time read only guards a raise (or selects the errors= mode "
              "of bytes.decode): code outside the error path does not depend on the mode",
              floor=1)
@@ -259,6 +262,7 @@ def check(prog: Program, run: Run) -> None:
                                   "the flag is overwritten at import time and never restored",
                                   f"{mod.rel}:{st.lineno}", stmt_key(st))
 
+    _check_signals(p2, run)
     _check_writers(p2, run, writers)
     _check_odxraise(p2, run, exc)
     _check_reads(p2, run, reads, writers)
@@ -266,6 +270,57 @@ def check(prog: Program, run: Run) -> None:
     run.info("call_time_reads", [f"{m.rel}:{f.qual if f else '-'}: {stmt_key(s)}"
                                  for m, f, x, s in reads])
     run.info("writers", [f"{m.rel}:{f.qual}: {stmt_key(s)}" for m, f, s in writers])
+
+
+# exception classes whose only purpose is to steer dispatch: a handler somewhere in the package
+# catches exactly this class to try the next alternative.  Routing them through odxraise would
+# switch the dispatch off in non-strict mode and change the result of a *valid* operation.
+def _check_signals(prog: Program, run: Run) -> None:
+    exc_classes = {c.name for c in prog.subclasses("OdxError")} if prog.has_cls("OdxError") \
+        else set()
+    caught_exact = {}
+    for f in prog.iter_functions():
+        for x in walk_no_nested(f.node):
+            if isinstance(x, ast.ExceptHandler) and x.type is not None:
+                names = [x.type] if not isinstance(x.type, ast.Tuple) else list(x.type.elts)
+                for n in names:
+                    nm = ast.unparse(n).split(".")[-1]
+                    if nm in exc_classes:
+                        caught_exact.setdefault(nm, []).append(f"{f.module.rel}:{f.qual}")
+    # a "signal" is a class that is caught somewhere and has a strict super class which is
+    # an OdxError as well and is *also* used for ordinary error reports (DecodeMismatch <: DecodeError)
+    signals = set()
+    for nm in caught_exact:
+        ci = prog.cls(nm)
+        supers = [c.name for c in prog.mro(ci)[1:] if c.name in exc_classes and c.name != "OdxError"]
+        if supers:
+            signals.add(nm)
+    if "DecodeMismatch" not in signals:
+        raise AnalysisError("DecodeMismatch is no longer caught as a dispatch signal; C17.R5 has "
+                            "lost its anchor")
+    n = 0
+    for f in prog.iter_functions():
+        for x in walk_no_nested(f.node):
+            if isinstance(x, ast.Call) and call_name(x) in ("odxraise", "odxassert"):
+                args = list(x.args) + [k.value for k in x.keywords]
+                for a in args:
+                    nm = ast.unparse(a).split(".")[-1]
+                    if nm in signals:
+                        n += 1
+                        run.violation("C17.R5", f"{f.module.rel}:{f.qual}", f"signal-{nm}-via-odxraise",
+                                      f"`{call_name(x)}(..., {nm})`: {nm} is a dispatch signal caught "
+                                      f"in {sorted(set(caught_exact[nm]))}; in non-strict mode it is "
+                                      "only logged, so the alternative is accepted instead of "
+                                      "skipped and a valid decode returns a different result",
+                                      f"{f.module.rel}:{x.lineno}", stmt_key(_enclosing_stmt(f.node, x)))
+            if isinstance(x, ast.Raise) and x.exc is not None:
+                e = x.exc.func if isinstance(x.exc, ast.Call) else x.exc
+                nm = ast.unparse(e).split(".")[-1]
+                if nm in signals:
+                    n += 1
+                    run.ok("C17.R5", f.qual, f"{nm} is raised unconditionally",
+                           f"{f.module.rel}:{x.lineno}")
+    run.info("dispatch_signals", {k: sorted(set(caught_exact[k])) for k in signals})
 
 
 def _enclosing_stmt(fn: ast.AST, x: ast.AST) -> ast.stmt:
